@@ -114,9 +114,9 @@ class World:
         if not any(c in CONTEXT_CLASSES for c in classes):
             classes.append("SelfAdjoint")
         opkinds = ["enter", "enter", "exit", "exit", "create", "read", "read", "write", "poke", "protect", "unprotect",
-                   "apply", "copy", "secularize", "convert", "fault", "badwrite", "opapply"]
+                   "apply", "copy", "secularize", "convert", "fault", "badwrite", "opapply", "opadd"]
         if rng.random() < 0.5:
-            drop = rng.sample(["poke", "protect", "apply", "copy", "secularize", "convert", "fault", "badwrite", "opapply"],
+            drop = rng.sample(["poke", "protect", "apply", "copy", "secularize", "convert", "fault", "badwrite", "opapply", "opadd"],
                               rng.randint(1, 5))
             opkinds = [k for k in opkinds if k not in drop]
         faultfree = rng.random() < 0.35
@@ -802,11 +802,18 @@ class Runner:
             idx = tuple((op["i"] if a % 2 == 0 else op["j"]) % s for a, s in enumerate(arr.shape))
             val = 0.25 + 0.5 * ((op["pay"] % 7) - 3)
             arr[idx] = val
+            idx2 = None
+            if o.cls in ("SelfAdjoint", "RDM"):
+                # keep self-adjoint classes self-adjoint (they may become context operators later)
+                idx2 = (idx[1], idx[0])
+                arr[idx2] = val
         except Exception as e:
             raise Violation("poke-raises", "op %d: %s: %s" % (i, type(e).__name__, e))
         exp = self._expected_presented(o)
         Y = {g: numpy.array(v) for g, v in exp.items()}
         Y[f][idx] = val
+        if idx2 is not None:
+            Y[f][idx2] = val
         o.X0 = self.back(o.cls, Y, o.dim)
         if self.depth >= 1:
             self.ctx.probe("poke_inside_context")
@@ -927,6 +934,30 @@ class Runner:
         n = self.add_obj("Operator", res, {"data": ao.X0["data"] @ bo.X0["data"]}, ao.dim)
         self.ctx.ev(i, "opapply", a, b, n, self.depth)
         self.ctx.cov("opapply", ao.cls, bo.cls, self.depth)
+
+    def op_opadd(self, i, op):
+        a = self.pick(op["s"], lambda o: o.cls in ("Operator", "SelfAdjoint", "RDM") and o.protected_at is None)
+        b = self.pick(op["k"], lambda o: o.cls in ("Operator", "SelfAdjoint", "RDM") and o.protected_at is None)
+        if a is None or b is None or a == b:
+            return
+        ao, bo = self.pool[a], self.pool[b]
+        if self.access_expected_refusal(ao) or self.access_expected_refusal(bo) or ao.dim != bo.dim:
+            return
+        if ao.cls in ("SelfAdjoint", "RDM") and bo.cls == "Operator":
+            return
+        ra, rb = self.raw(ao, "data"), self.raw(bo, "data")
+        if ra is None or rb is None or (numpy.iscomplexobj(rb) and not numpy.iscomplexobj(ra)) or self.cplx:
+            return      # numpy refuses to add complex numbers into a real array in place (not a basis matter)
+        self.touch_probe(ao)
+        self.touch_probe(bo)
+        try:
+            res = ao.real + bo.real
+        except Exception as e:
+            raise Violation("apply-raises", "op %d: Operator.__add__ at depth %d: %s: %s" % (i, self.depth, type(e).__name__, e))
+        check(res is ao.real, "operator-add-returns-self", "op %d" % i)
+        ao.X0 = {"data": ao.X0["data"] + bo.X0["data"]}
+        self.ctx.ev(i, "opadd", a, b, self.depth)
+        self.ctx.cov("opadd", ao.cls, bo.cls, self.depth)
 
     def op_copy(self, i, op):
         n = self.pick(op["k"], lambda o: o.protected_at is None)
